@@ -90,6 +90,22 @@ func rbPollingInputs(eio int) []rbInput {
 			v.reqs = append(v.reqs, v.w.Request("GET", v.pc.url(true), ReqOpt{Body: []byte("4x")}))
 			return 2
 		}},
+		{"handshake-naming-webtransport", func(v *rbVictim) int {
+			v.reqs = append(v.reqs, v.w.Request("GET", "/engine.io/?EIO=4&transport=webtransport", ReqOpt{}))
+			return 0
+		}},
+		{"request-naming-webtransport-with-sid", func(v *rbVictim) int {
+			v.reqs = append(v.reqs, v.w.Request("GET", "/engine.io/?EIO=4&transport=webtransport&sid="+v.pc.Sid, ReqOpt{}))
+			return 0
+		}},
+		{"ws-upgrade-naming-webtransport", func(v *rbVictim) int {
+			v.reqs = append(v.reqs, v.w.Request("GET", "/engine.io/?EIO=4&transport=webtransport&sid="+v.pc.Sid, ReqOpt{Hdr: WSUpgradeHeaders(false), Hijackable: true}))
+			return 0
+		}},
+		{"ws-upgrade-naming-polling", func(v *rbVictim) int {
+			v.reqs = append(v.reqs, v.w.Request("GET", "/engine.io/?EIO=4&transport=polling&sid="+v.pc.Sid, ReqOpt{Hdr: WSUpgradeHeaders(false), Hijackable: true}))
+			return 0
+		}},
 		{"second-poll", func(v *rbVictim) int {
 			v.reqs = append(v.reqs, v.pc.Get())
 			return 0
@@ -360,6 +376,11 @@ func rbBody(kind string, script []rbInput, offenders map[string]bool) vsched.Bod
 				x.Fail("hang%s: thread %s exceeded the work budget (10^7 loop iterations) (%s)\n%s", clsOf("hang"), t.Name, id, trimStack(t.Stack))
 			} else {
 				x.Fail("panic%s: thread %s: %v (%s)\n%s", clsOf("panic"), t.Name, t.Panic, id, trimStack(t.Stack))
+			}
+		}
+		for _, r := range w.Resps {
+			if r.Panic != nil {
+				x.Fail("panic%s: the handler of %s panicked: %v (%s)", clsOf("panic"), r.Desc, r.Panic, id)
 			}
 		}
 		// work in proportion to the bytes received (loop iterations of the engine and its parser)
